@@ -263,6 +263,11 @@ def oracle(case, events, T):
                 ref.pop(ev['sid'], None)
                 torn[ev['sid']] = ev['cls']
             continue
+        if ev['op'] == 'swpar':
+            # a sweep next to a request: the request as it stands, then the sweep - a session the request
+            # saved a moment ago is live, so the sweep must not have taken it
+            request(n, ev['A'])
+            ev = ev['S']
         if ev['op'] == 'sweep':
             other = sorted(c for s, c in torn.items() if c == 'oth' and s in ev['before'])
             if ev['out'] != 'done':
